@@ -11,8 +11,10 @@ pub mod c13;
 pub mod c15;
 pub mod c16;
 pub mod c19;
+pub mod c20;
 pub mod e3;
 pub mod e4;
+pub mod e7;
 pub mod mapmodel;
 
 pub fn run(id: &str, tier: Tier) -> i32 {
@@ -30,6 +32,9 @@ pub fn run(id: &str, tier: Tier) -> i32 {
         "C16" => c16::run(tier),
         "C13" => c13::run(tier),
         "C15" => c15::run(tier),
+        "C14" => e7::run_c14(tier),
+        "C18" => e7::run_c18(tier),
+        "C20" => c20::run(tier),
         "C11" => e4::run_c11(tier),
         "C12" => e4::run_c12(tier),
         _ => {
@@ -54,6 +59,9 @@ pub fn recheck(id: &str, case: &Value) -> Vec<String> {
         "C16" => c16::recheck(case),
         "C13" => c13::recheck(case),
         "C15" => c15::recheck(case),
+        "C14" => e7::recheck_c14(case),
+        "C18" => e7::recheck_c18(case),
+        "C20" => c20::recheck(case),
         "C11" => e4::recheck_c11(case),
         "C12" => e4::recheck_c12(case),
         _ => vec![],
@@ -99,6 +107,9 @@ pub fn replay(id: &str, path: &str) -> i32 {
 pub fn internal(cmd: &str, args: &[String]) -> i32 {
     match cmd {
         "scale-probe" => c13::scale_probe(args),
+        "c14-worker" => e7::c14_worker(args),
+        "c14-one" => e7::c14_one(args),
+        "c18-worker" => e7::c18_worker(args),
         _ => {
             eprintln!("unknown command {}", cmd);
             2
